@@ -38,6 +38,12 @@ MUTANTS = [
             grid_conv)""", note='convergence sign not flipped for the northern hemisphere'),
     dict(id='tm-standalone-newton', props=['C02'], file='Standalone/mga2gda.py', old='    lat = degrees(atan(t4))',
          new='    lat = degrees(atan(t2))', note='stand-alone converter: one Newton step only'),
+    dict(id='sa-batch-columns', props=['C02'], file='Standalone/mga2gda.py',
+         old="        east = float(row[2])\n        north = float(row[3])", new="        east = float(row[3])\n        north = float(row[2])",
+         note='stand-alone batch path reads easting and northing from each other\'s column'),
+    dict(id='sa-batch-seconds', props=['C02'], file='Standalone/mga2gda.py',
+         old="    dms = degrees + (minutes / 100) + (seconds / 10000)", new="    dms = degrees + (minutes / 100) + (round(seconds, 4) / 10000)",
+         note='stand-alone batch output: seconds rounded to 4 decimals (1e-4 arc-second = 2.8e-8 deg, above the stated 1e-10 deg)'),
     dict(id='psf-quadrant', props=['C10'], file='geodepy/convert.py', old='    elif cm < lon and lat > 0:',
          new='    elif cm < lon and lat >= 0 and False:', note='quadrant sign rule'),
     dict(id='psf-cosh-sinh', props=['C10'], file='geodepy/convert.py',
